@@ -50,13 +50,23 @@ def make(kind):
     return desper.World()
 
 
+class LoadFault(OSError):
+    """the transient failure injected into load()"""
+
+
 class LogHandle(Handle):
-    def __init__(self, name, kind):
+    def __init__(self, name, kind, fail_at=0):
         self.name = name
         self.kind = kind
-        self.events = []            # ('load', value) | ('clear',)
+        self.events = []            # ('load', value) | ('clear',) | ('fail',)
+        self.fail_at = fail_at      # 1-based number of the load attempt that raises (0: never)
+        self.attempts = 0
 
     def load(self):
+        self.attempts += 1
+        if self.attempts == self.fail_at:
+            self.events.append(('fail',))
+            raise LoadFault('resource temporarily unavailable (load attempt %d)' % self.attempts)
         v = make(self.kind)
         self.events.append(('load', v))
         return v
@@ -69,6 +79,10 @@ class LogHandle(Handle):
         return '<%s>' % self.name
 
 
+class _Skip(Exception):
+    """leave the per-operation checks (harness-internal)"""
+
+
 class Track:
     """model of one handle"""
 
@@ -79,15 +93,25 @@ class Track:
         self.has_value = False
         self.value = None
         self.loads = 0
+        self.nf = 0                 # failed load attempts absorbed in the current step
+        self.after_fault = False    # the previous access to this handle failed in load()
 
 
 def absorb(sp, t, when):
     """replay the new events of handle t.h on the model; returns (n_loads, n_clears) of this step"""
     nl = nc = 0
+    t.nf = 0
     for ev in t.h.events[t.seen:]:
         if ev[0] == 'clear':
             t.cached = False
             nc += 1
+        elif ev[0] == 'fail':
+            sp.check(not t.cached, 'load-at-most-once',
+                     '%s: %r.load() was attempted again although no clear() happened since its last load' % (
+                         when, t.h))
+            sp.check(t.nf == 0 and nl == 0, 'load-at-most-once',
+                     '%s: %r.load() ran more than once within one access' % (when, t.h))
+            t.nf += 1
         else:
             sp.check(not t.cached, 'load-at-most-once',
                      '%s: %r.load() ran again although no clear() happened since its last load (load #%d)' % (
@@ -101,21 +125,23 @@ def absorb(sp, t, when):
     return nl, nc
 
 
-def h_access(sp, L=3, n_handles=2, kinds=KINDS):
+def h_access(sp, L=3, n_handles=2, kinds=KINDS, faults=0):
     kind = sp.pick(list(kinds), 'kind')
+    # load fault: the load attempt number `fail_at` (solver-chosen in 1..faults) of every handle raises once
+    fail_at = sp.choose(faults, 'fail_at') + 1 if faults else 0
     m = ResourceMap()
     hs = []
     if n_handles >= 2:
-        h0 = LogHandle('h0@k', kind)
+        h0 = LogHandle('h0@k', kind, fail_at)
         m['k'] = h0
         hs.append(h0)
-    h1 = LogHandle('h1@a/k', kind)
+    h1 = LogHandle('h1@a/k', kind, fail_at)
     m['a/k'] = h1
     hs.append(h1)
     st = m.get_static_map()
     tracks = [Track(h) for h in hs]
     loop = desper.SimpleLoop() if kind == 'world' else None
-    sp.note('loaded value kind: %s' % kind)
+    sp.note('loaded value kind: %s%s' % (kind, ', load attempt %d raises' % fail_at if fail_at else ''))
 
     def paths_for(h):
         if h is h1:
@@ -149,8 +175,30 @@ def h_access(sp, L=3, n_handles=2, kinds=KINDS):
             if op < len(acc):
                 name, fn = acc[op]
                 sp.note('%s  -> %s' % (h, name))
-                r = fn()
+                try:
+                    r = fn()
+                    fault = None
+                except LoadFault as ex:
+                    fault = ex
                 nl, nc = absorb(sp, t, when)
+                if fault is not None or t.nf:
+                    # a failed load: nothing was loaded, so the exception reaches the accessor, the handle is
+                    # not cached afterwards (checked below for every handle) and the next access loads afresh
+                    sp.check(fault is not None, 'load-fault-propagates',
+                             '%s: load() raised inside %s but the access returned normally' % (when, name))
+                    sp.check(not before and nl == 0 and nc == 0 and t.nf == 1, 'cached-predicts',
+                             '%s: cached was %r before %s; %d failed and %d completed loads' % (
+                                 when, before, name, t.nf, nl))
+                    t.after_fault = True
+                    sp.cover('load-fault')
+                    if t.loads:
+                        sp.cover('load-fault-after-clear')
+                    raise _Skip()
+                if t.after_fault:
+                    t.after_fault = False
+                    sp.cover('access-after-fault')
+                    if 'static' in name:
+                        sp.cover('static-access-after-fault')
                 sp.check(nc == 0, 'cached-predicts',
                          '%s: plain access %s cleared the handle' % (when, name))
                 sp.check(nl == (0 if before else 1), 'cached-predicts',
@@ -177,8 +225,24 @@ def h_access(sp, L=3, n_handles=2, kinds=KINDS):
                 cc, cn = bool(k & 1), bool(k & 2)
                 cur = loop.current_world_handle
                 sp.note('loop.switch(%s, clear_current=%r, clear_next=%r)   (current handle %r)' % (h, cc, cn, cur))
-                loop.switch(h, clear_current=cc, clear_next=cn)
+                try:
+                    loop.switch(h, clear_current=cc, clear_next=cn)
+                    fault = None
+                except LoadFault as ex:
+                    fault = ex
                 nl, nc = absorb(sp, t, when)
+                if fault is not None or t.nf:
+                    sp.check(fault is not None, 'load-fault-propagates',
+                             '%s: load() raised inside switch but switch returned normally' % when)
+                    sp.check(nl == 0 and t.nf == 1, 'load-at-most-once',
+                             '%s: %d failed and %d completed loads in one switch' % (when, t.nf, nl))
+                    t.after_fault = True
+                    sp.cover('load-fault')
+                    sp.cover('switch-load-fault')
+                    raise _Skip()
+                if t.after_fault:
+                    t.after_fault = False
+                    sp.cover('access-after-fault')
                 r = loop.current_world
                 if nc == 0:
                     sp.check(nl == (0 if before else 1), 'cached-predicts',
@@ -190,6 +254,8 @@ def h_access(sp, L=3, n_handles=2, kinds=KINDS):
                 sp.cover('switch')
                 if nc:
                     sp.cover('switch-clears')
+        except _Skip:
+            pass
         except Exception as ex:         # noqa  (engine control flow is BaseException)
             sp.fail('op-raises', '%s: operation raised %r' % (when, ex))
         for u in tracks:
@@ -202,15 +268,23 @@ def h_access(sp, L=3, n_handles=2, kinds=KINDS):
 HARNESSES = {
     'access': dict(fn=h_access,
                    nontrivial=['cached-hit', 'reload-after-clear', 'static-access', 'clear-cached', 'switch',
-                               'switch-clears', 'cached-hit-falsy'],
+                               'switch-clears', 'cached-hit-falsy', 'load-fault', 'access-after-fault'],
                    required=['cached-hit', 'cached-hit-falsy', 'reload-after-clear', 'static-access',
                              'clear-cached', 'switch', 'switch-clears']),
 }
 
+_FAULT_REQ = ['load-fault', 'access-after-fault', 'static-access-after-fault', 'load-fault-after-clear',
+              'cached-hit', 'reload-after-clear']
+
 TIERS = {
-    'quick': [('access', dict(L=3, n_handles=2))],
+    'quick': [('access', dict(L=3, n_handles=2)),
+              ('access', dict(L=4, n_handles=1, kinds=['None', '[]'], faults=2), {'required': _FAULT_REQ}),
+              ('access', dict(L=3, n_handles=1, kinds=['world'], faults=2),
+               {'required': _FAULT_REQ[:2] + ['switch-load-fault']})],
     'thorough': [('access', dict(L=5, n_handles=1)),
-                 ('access', dict(L=4, n_handles=2))],
+                 ('access', dict(L=4, n_handles=2)),
+                 ('access', dict(L=4, n_handles=1, faults=3), {'required': _FAULT_REQ + ['switch-load-fault']}),
+                 ('access', dict(L=3, n_handles=2, faults=2), {'required': _FAULT_REQ + ['switch-load-fault']})],
 }
 BUDGET_S = {'quick': 300, 'thorough': 1500}
 
@@ -225,10 +299,16 @@ RULE = ('one evaluation = one feasible path of the decision tree (distinct histo
         'through a static map, a clear of a cached handle or a loop switch')
 BOUNDS = {
     'quick': 'value kinds None,0,\'\',[],object with raising __eq__/__bool__/__len__,7,World; 2 handles '
-             '(k and a/k); 6-7 access paths per handle + clear (+4 switch variants for World); all histories of 3 ops',
-    'thorough': 'same kinds; 1 handle (a/k): all histories of 5 ops; 2 handles: all histories of 4 ops',
+             '(k and a/k); 6-7 access paths per handle + clear (+4 switch variants for World); all histories of 3 ops; '
+             'load faults (load attempt 1 or 2 raises once): 1 handle, kinds None,[] with 4 ops, kind World with 3 ops',
+    'thorough': 'same kinds; 1 handle (a/k): all histories of 5 ops; 2 handles: all histories of 4 ops; load faults: '
+                'all kinds, 1 handle, attempt 1..3 raises, 4 ops; 2 handles, attempt 1..2, 3 ops',
 }
 ASSUMPTIONS = [
+    'load fault entries: a load() that raises has loaded nothing, so the exception must reach the accessor (there is '
+    'no object an access could return, and a silent retry would be a second load), the handle is not cached '
+    'afterwards and the next access loads afresh and returns that object; the fault is an OSError subclass raised '
+    'once, at a solver-chosen load attempt',
     'load()/clear() invocations are observed by overriding them in a Handle subclass (the overrides defer to '
     'the base class); an implementation that invalidated its cache without calling clear() would be reported',
     'loading a handle as a side effect of accessing a different one is accepted (the statement does not forbid it)',
